@@ -1,5 +1,5 @@
 """C14 — key containers (SEC1, WIF, PEM) round-trip; only well-formed input accepted."""
-from ..core import rng_for
+from ..core import rng_for, ContractViolation
 from ..ref import secp, base58 as r58
 from .common import rand_bytes, keys_boundary, k32
 
@@ -36,7 +36,8 @@ def gen_cases(tier, seed):
             yield "wif", {"net": net, "type": t, "salt": rng.getrandbits(40), "reps": 6 if q else 60}
     for i in range(40 if q else 600):
         yield "wif_corrupt", {"salt": rng.getrandbits(40)}
-    yield "wif_badkeys", {"salt": rng.getrandbits(40)}
+    for i in range(3 if q else 30):
+        yield "wif_badkeys", {"salt": rng.getrandbits(40)}
     for lz in range(0, 32):
         for rep in range(1 if q else 6):
             yield "pem_private", {"lz": lz, "salt": rng.getrandbits(40)}
@@ -49,7 +50,7 @@ def gen_cases(tier, seed):
 def required(tier):
     return {"sec1.rt": 150, "sec1.cand": 3000, "sec1.cand.accept": 100, "sec1.class.len65_prefix02": 50, "sec1.class.offcurve": 50,
             "sec1.class.x_ge_p": 50, "sec1.class.hybrid": 50, "sec1.class.coord_plus_p": 100, "sec1.class.offcurve_pseudo_root": 50, "wif.rt": 140, "wif.corrupt": 500, "wif.unknown_version": 100,
-            "wif.badkey_refused": 10, "pem.priv": 32, "pem.priv.ossl_reads": 32, "pem.priv.lib_reads_ossl": 32, "pem.pub": 100,
+            "wif.badkey_refused": 10, "privkey.badkey_refused.pem_encode_key": 8, "privkey.badkey_refused.compute_point": 8, "pem.priv": 32, "pem.priv.ossl_reads": 32, "pem.priv.lib_reads_ossl": 32, "pem.pub": 100,
             "pem.pub.ossl_reads": 100, "pem.pub.lib_reads_ossl": 100, "cli.pubkey": 150, "cli.pubkey_bad": 300, "cli.wif": 20}
 
 
@@ -119,45 +120,8 @@ def run_case(kind, params, ctx):
                 ctx.violation(f"sec1/roundtrip-raises/{'c' if comp else 'u'}", f"{type(e).__name__}: {e} for k={k:#x}")
         return
     if kind == "sec1_candidates":
-        pt = secp.pub(rng.randrange(1, N))
-        c, u = secp.sec1_encode(pt, True), secp.sec1_encode(pt, False)
-        x = pt[0]
-        while secp.SECP.lift_x(x) is not None:
-            x = (x + 1) % P
-        xb, yb = pt[0].to_bytes(32, "big"), pt[1].to_bytes(32, "big")
-        cands = [
-            ("valid", c), ("valid", u), ("valid_wrong_parity_prefix", bytes([c[0] ^ 1]) + c[1:]),
-            ("len65_prefix02", b"\x02" + xb + yb), ("len65_prefix02", b"\x03" + xb + b"\x00" * 32), ("len65_prefix02", bytes([c[0]]) + xb + rand_bytes(rng, 32)),
-            ("len33_prefix04", b"\x04" + xb), ("x_ge_p", b"\x02" + (P + rng.randrange(0, 977)).to_bytes(32, "big")),
-            ("x_ge_p", b"\x04" + (P + 1).to_bytes(32, "big") + yb), ("x_ge_p", b"\x03" + b"\xff" * 32),
-            ("y_ge_p", b"\x04" + xb + (P + rng.randrange(0, 900)).to_bytes(32, "big")),
-            ("offcurve", b"\x02" + x.to_bytes(32, "big")), ("offcurve", b"\x03" + x.to_bytes(32, "big")),
-            ("offcurve", b"\x04" + xb + ((pt[1] + 1) % P).to_bytes(32, "big")), ("offcurve", b"\x04" + yb + xb),
-            ("offcurve", b"\x04" + b"\x00" * 64), ("hybrid", bytes([6 + (pt[1] & 1)]) + xb + yb), ("hybrid", bytes([7 - (pt[1] & 1)]) + xb + yb),
-            ("other_prefix", bytes([rng.choice([0, 1, 5, 8, 0x80, 0xFF])]) + xb), ("other_prefix", bytes([rng.choice([0, 1, 5, 8, 0xFF])]) + xb + yb),
-            ("neg_y_uncompressed", b"\x04" + xb + (P - pt[1]).to_bytes(32, "big")),
-            ("wrong_len", c[:-1]), ("wrong_len", c + b"\x00"), ("wrong_len", u[:-1]), ("wrong_len", u + b"\x00"), ("wrong_len", c[:32]), ("wrong_len", u[:64]),
-        ]
-        # coordinates aliased modulo p: a small valid abscissa x (x + p still fits in 32 bytes only for x < 2^32 + 977)
-        for sx in _small_abscissae():
-            spt = secp.SECP.lift_x(sx)
-            for yy in (spt[1], secp.P - spt[1]):
-                cands.append(("coord_plus_p", b"\x04" + (sx + P).to_bytes(32, "big") + yy.to_bytes(32, "big")))
-            cands.append(("coord_plus_p", b"\x02" + (sx + P).to_bytes(32, "big")))
-            cands.append(("coord_plus_p", b"\x03" + (sx + P).to_bytes(32, "big")))
-            cands.append(("valid_small_x", b"\x04" + sx.to_bytes(32, "big") + spt[1].to_bytes(32, "big")))
-        # off-curve x together with the "pseudo root" (c^((p+1)/4) for a non-residue c): what a decoder that trusts
-        # its own square-root routine without squaring back would accept
-        cnr = (x * x * x + 7) % P
-        pr = pow(cnr, (P + 1) // 4, P)
-        for yy in (pr, P - pr):
-            cands.append(("offcurve_pseudo_root", b"\x04" + x.to_bytes(32, "big") + yy.to_bytes(32, "big")))
-        for _ in range(30):
-            ln = rng.choice([33, 65, 33, 65, rng.randrange(0, 71)])
-            b = rand_bytes(rng, ln)
-            if ln in (33, 65) and rng.random() < 0.7:
-                b = bytes([rng.choice([2, 3, 4])]) + b[1:]
-            cands.append(("random", b))
+        from .common import sec1_candidates
+        cands = sec1_candidates(rng)
         for cls, b in cands:
             _sec1_verdict(ctx, b, cls)
         return
@@ -304,6 +268,20 @@ def run_case(kind, params, ctx):
                     ctx.violation(f"wif/encodes-invalid-key/{'len' if len(b) != 32 else ('zero' if int.from_bytes(b, 'big') == 0 else '>=n')}", f"wif_encode({b.hex()}) = {out!r}")
                 except Exception:
                     ctx.count("wif.badkey_refused")
+        # every encoder that takes a private key must refuse the same values (a 33-byte buffer is a public key to pem_encode_key)
+        edge = [0, N, N + 1, N + rng.randrange(2, 1 << 100), (1 << 256) - 1, (1 << 256) - rng.randrange(2, 1 << 64), rng.randrange(N, 1 << 256)]
+        for b in [v.to_bytes(32, "big") for v in edge] + [b"\x01" * 31, b"", b"\x01" * 34]:
+            cls = "len" if len(b) != 32 else ("zero" if int.from_bytes(b, "big") == 0 else ">=n")
+            for name, fn in (("pem_encode_key", bits.pem_encode_key), ("wif_encode", lambda x: bits.wif_encode(x, addr_type="p2wpkh", network="testnet")),
+                             ("compute_point", bu.compute_point), ("keys.pub", __import__("bits.keys").keys.pub)):
+                try:
+                    out = fn(b)
+                    ctx.violation(f"privkey/encodes-invalid-key/{name}/{cls}", f"{name}({b.hex()}) = {out!r}"[:300])
+                except ContractViolation:
+                    raise
+                except Exception:
+                    ctx.count("privkey.badkey_refused")
+                    ctx.count(f"privkey.badkey_refused.{name}")
         ctx.nontrivial()
         ctx.nontrivial("b")
         return
